@@ -402,6 +402,9 @@ def rule_r9(p, res):
         raise AnalysisError("C05.R9: only %d vectorisation methods found (floor 20)" % n)
 
 
+# rules of sibling properties over code paths this property's statement also quantifies over (DESIGN.md section 3, shared rules)
+ALSO = ['C06.R2', 'C20.R6']
+
 RULES = [rule_r1, rule_r2, rule_r3, rule_r4, rule_r5, rule_r6, rule_r7, rule_r8, rule_r9]
 
 WITNESSES = [
